@@ -43,6 +43,15 @@ class SizeRule(sym.Rule):
                     pa = a
                 elif k == 2:
                     sa = a
+        if pa is None and sa is not None:
+            # the data pointer has not been touched yet on this walk: its cell is at a fixed
+            # distance from the size cell (layout of small_vector_data_base)
+            for t in eng.data_base_types():
+                fl = eng.layout.fields(t)
+                if fl and len(fl) >= 3:
+                    pa = lin_add(sa, L(fl[0][0] - fl[2][0]))
+                    eng.field_tag[pa] = 0
+                    break
         return pa, sa
 
     def cur_end(self, obj, st, eng):
